@@ -11,7 +11,23 @@ import (
 type TypeMap struct {
 	ctx     *Ctx
 	dtCache map[string]Sort // type string -> datatype sort
+	subst   []map[*types.TypeParam]types.Type // instantiation stack while generic bodies are inlined
 }
+
+// resolve substitutes type parameters of the generic bodies currently being inlined.
+func (tm *TypeMap) resolve(t types.Type) types.Type {
+	if tp, ok := types.Unalias(t).(*types.TypeParam); ok {
+		for i := len(tm.subst) - 1; i >= 0; i-- {
+			if r, ok := tm.subst[i][tp]; ok {
+				return tm.resolve(r)
+			}
+		}
+	}
+	return t
+}
+
+var activeTM *TypeMap // used by typeName for type arguments (single-threaded translation per Xlat)
+
 
 func NewTypeMap(ctx *Ctx) *TypeMap { return &TypeMap{ctx: ctx, dtCache: map[string]Sort{}} }
 
@@ -73,7 +89,11 @@ func typeName(t types.Type) string {
 		if ta := n.TypeArgs(); ta != nil && ta.Len() > 0 {
 			var as []string
 			for i := 0; i < ta.Len(); i++ {
-				as = append(as, sanitize(types.TypeString(ta.At(i), func(p *types.Package) string { return pkgShort(p.Path()) })))
+				at := ta.At(i)
+				if activeTM != nil {
+					at = activeTM.resolve(at)
+				}
+				as = append(as, sanitize(types.TypeString(at, func(p *types.Package) string { return pkgShort(p.Path()) })))
 			}
 			s += "<" + strings.Join(as, ",") + ">"
 		}
@@ -83,7 +103,7 @@ func typeName(t types.Type) string {
 }
 
 func (tm *TypeMap) SortOf(t types.Type) Sort {
-	t = types.Unalias(t)
+	t = types.Unalias(tm.resolve(t))
 	switch u := t.Underlying().(type) {
 	case *types.Basic:
 		switch {
@@ -176,7 +196,7 @@ func (tm *TypeMap) ArrAccessor(t types.Type, i int64) string {
 
 // Zero value term of a Go type.
 func (tm *TypeMap) Zero(t types.Type) *Term {
-	t = types.Unalias(t)
+	t = types.Unalias(tm.resolve(t))
 	switch u := t.Underlying().(type) {
 	case *types.Basic:
 		switch {
